@@ -1236,8 +1236,13 @@ class ABCPropertyGraph(ABCPropertyGraphConstants):
         props = self.link_sliver_to_graph_properties_dict(lsliver)
         self.add_node(node_id=lsliver.node_id, label=ABCPropertyGraph.CLASS_Link, props=props)
         # add edge links to specified interfaces
-        for i in interfaces:
-            self.add_link(node_a=lsliver.node_id, rel=ABCPropertyGraph.REL_CONNECTS, node_b=i)
+        try:
+            for i in interfaces:
+                self.add_link(node_a=lsliver.node_id, rel=ABCPropertyGraph.REL_CONNECTS, node_b=i)
+        except Exception:
+            # don't leave a partially connected link behind
+            self.delete_node(node_id=lsliver.node_id)
+            raise
 
     def add_component_sliver(self, *, parent_node_id: str, component: ComponentSliver):
         """
